@@ -48,6 +48,15 @@ def minList : List Int → Int
   | [] => 0
   | x :: xs => xs.foldl min x
 
+/-- `max(xs)` / `min(xs)` of a non-empty list of floats: the first extreme element, as Python's left-to-right scan
+(empty: ValueError — not modelled, yields 0) -/
+def maxListF : List Float → Float
+  | [] => 0
+  | x :: xs => xs.foldl (fun m y => if y > m then y else m) x
+def minListF : List Float → Float
+  | [] => 0
+  | x :: xs => xs.foldl (fun m y => if y < m then y else m) x
+
 /-- `round(x)` for a finite double `0 ≤ x < 2^63` (the model's rounding; negative arguments not modelled) -/
 def round (x : Float) : Int := Int.ofNat (CR.Gen.pyRoundNonneg x)
 
